@@ -76,9 +76,11 @@ def modify (e : Entry) : Str × Str :=
   let (react, part) := oBranch given (hBranch given (e.reactants, added))
   (react, given ++ part)
 
-/-- `remove_banned_reactions`: is the (modified) reaction kept as certain? -/
+/-- `remove_banned_reactions`: is the (modified) reaction kept as certain? (no banned spelling in the products; the
+components `[H]` behind the first reactant — the appended hydrogen atoms — come in pairs) -/
 def certain (ban : List Str) (reactants products : Str) : Bool :=
-  !(ban.any fun b => hasInfix b products) && countOcc (str ".[H]") reactants % 2 == 0
+  !(ban.any fun b => hasInfix b products) &&
+    ((splitOn '.' reactants).tail.count (str "[H]")) % 2 == 0
 
 /-- `RuleConstraint(...).fit()` for one entry: `(new_reaction, certain?)` -/
 def constraintFit (ban : List Str) (e : Entry) : Str × Bool :=
